@@ -73,6 +73,9 @@ func (g *pkgGen) ref() *Node {
 		}
 		return A(g.name())
 	case 1:
+		if g.r.Chance(1, 8) {
+			return A("lisp:" + g.name())
+		}
 		return A(PickStr(g.r, pkgNames) + ":" + g.name())
 	case 2:
 		return A(":" + g.name())
@@ -83,6 +86,9 @@ func (g *pkgGen) ref() *Node {
 
 func (g *pkgGen) callee() *Node {
 	n := PickStr(g.r, append(append([]string(nil), funNames...), macNames...))
+	if g.r.Chance(1, 10) {
+		return A("lisp:" + n)
+	}
 	if g.r.Chance(1, 2) {
 		return A(PickStr(g.r, pkgNames) + ":" + n)
 	}
@@ -96,11 +102,28 @@ func (g *pkgGen) T(d int) *Node {
 		}
 		return g.ref()
 	}
-	w := []int{4, 8, 10, 3, 3, 4, 3, 4, 5, 4, 4, 3, 7, 3, 4, 3, 3, 3}
+	w := []int{4, 8, 10, 3, 3, 4, 3, 4, 5, 4, 4, 3, 7, 3, 4, 3, 3, 3, 3, 2}
 	if g.noDef > 0 {
 		w[11], w[13] = 0, 0
 	}
 	switch g.r.Pick(w) {
+	case 18:
+		// a function whose formal is an ordinary name or one of the constants
+		v := g.name()
+		if g.r.Chance(1, 3) {
+			v = PickStr(g.r, []string{"true", "false"})
+		}
+		arg := g.T(d - 1)
+		g.lex = append(g.lex, v)
+		body := g.T(d - 1)
+		g.lex = g.lex[:len(g.lex)-1]
+		return Call("funcall", L(A("lambda"), L(A(v)), Call("list", A(v), body)), arg)
+	case 19:
+		// definitions made while the language package itself is current
+		return Call("progn", Call("in-package", QS("lisp")), PickNode(g.r,
+			Call("set", QS(g.name()), g.val()),
+			L(A("defun"), A(PickStr(g.r, funNames)), L(), Call("list", g.val(), Call("sim:cur-pkg"), Call("ignore-errors", A(g.name()))))),
+			Call("in-package", QS(PickStr(g.r, pkgNames))))
 	case 0:
 		return g.val()
 	case 1:
@@ -360,7 +383,7 @@ type pmodel struct {
 }
 
 func newPModel(faults []FaultSpec) *pmodel {
-	return &pmodel{pkgs: map[string]*ppkg{"user": {syms: map[string]pval{}}}, cur: "user", faults: faults, fpHits: map[int]int{}, stats: map[string]int{}}
+	return &pmodel{pkgs: map[string]*ppkg{"user": {syms: map[string]pval{}}, "lisp": {syms: map[string]pval{}}}, cur: "user", faults: faults, fpHits: map[int]int{}, stats: map[string]int{}}
 }
 
 func merr() *perr { return &perr{cond: "error", model: true} }
@@ -591,6 +614,34 @@ func (m *pmodel) eval(n *Node, lex *penv) (pval, *perr) {
 		f := &pfun{pkg: m.cur, body: args[2:], env: lex, macro: head == "defmacro"}
 		m.pkgs[m.cur].syms[args[0].Atom] = pval{k: pFun, fn: f}
 		return pval{}, nil
+	case "funcall":
+		// (funcall (lambda (v) body...) arg)
+		lam := args[0]
+		defPkg := m.cur // the lambda is created first, in the package current at that point
+		av, e := m.eval(args[1], lex)
+		if e != nil {
+			return av, e
+		}
+		name := lam.List[1].List[0].Atom
+		ne := &penv{vars: map[string]pval{}, parent: lex}
+		if name != "true" && name != "false" {
+			ne.vars[name] = av // a formal named after a constant binds nothing: the constant keeps its meaning
+		} else {
+			m.stats["reach_constant_named_formal"]++
+		}
+		// like every function, its body runs with its defining package current
+		// (the package is switched, and switched back, only when it differs:
+		// an in-package executed by a body running in its caller's own package
+		// is an ordinary dynamic effect and stays)
+		outer := m.cur
+		if defPkg != outer {
+			m.cur = defPkg
+		}
+		v, e := m.seq(lam.List[2:], ne)
+		if defPkg != outer {
+			m.cur = outer
+		}
+		return v, e
 	case "load-string":
 		src, err := strconv.Unquote(args[0].Atom)
 		if err != nil {
@@ -621,9 +672,13 @@ func (m *pmodel) eval(n *Node, lex *penv) (pval, *perr) {
 		if f.pkg != outer {
 			m.stats["reach_cross_package_call"]++
 		}
-		m.cur = f.pkg
+		if f.pkg != outer {
+			m.cur = f.pkg
+		}
 		v, e := m.seq(f.body, f.env)
-		m.cur = outer
+		if f.pkg != outer {
+			m.cur = outer
+		}
 		if e != nil {
 			if f.pkg != outer {
 				m.stats["reach_cross_package_call_failed"]++
@@ -720,6 +775,12 @@ func pkgValid(n *Node) bool {
 		return true
 	case "defun", "defmacro":
 		return len(args) >= 3 && !args[0].IsL && args[1].IsL && len(args[1].List) == 0 && all(args[2:])
+	case "funcall":
+		if len(args) != 2 || !args[0].IsL || args[0].Head() != "lambda" || len(args[0].List) < 3 {
+			return false
+		}
+		fl := args[0].List[1]
+		return fl.IsL && len(fl.List) == 1 && !fl.List[0].IsL && all(args[0].List[2:]) && pkgValid(args[1])
 	case "load-string":
 		if len(args) != 1 || args[0].IsL {
 			return false
@@ -763,6 +824,16 @@ func pkgInspection() []*Node {
 		}
 		ys = append(ys, A(":a0"), A("true"))
 		forms = append(forms, Call("load-string", Str(Src([]*Node{Call("in-package", QS(p)), Call("sim:probe", QS("u"), L(ys...))}))))
+	}
+	{
+		xs := []*Node{A("list"), Str("lisp")}
+		for _, v := range varNames {
+			xs = append(xs, Call("ignore-errors", A("lisp:"+v)))
+		}
+		for _, f := range funNames {
+			xs = append(xs, Call("ignore-errors", L(A("lisp:"+f))))
+		}
+		forms = append(forms, Call("sim:probe", QS("q"), L(xs...)))
 	}
 	forms = append(forms, Call("sim:probe", QS("cur"), Call("sim:cur-pkg")))
 	return forms
